@@ -9,6 +9,8 @@
 package main
 
 import (
+	"encoding/base64"
+	"net/url"
 	"bytes"
 	"encoding/json"
 	"io"
@@ -184,6 +186,43 @@ func (t *sparseJSON) RoundTrip(req *http.Request) (*http.Response, error) {
 }
 
 var sparsePages atomic.Int64
+
+// cursorLinks makes the peer page the way registries with opaque cursors do: the Link header of an answer
+// names the next page by a token only this peer understands (no last=, no n=), and a request that comes
+// back with the token gets the page it stands for. A client follows the Link as it is written.
+type cursorLinks struct {
+	inner http.RoundTripper
+	n     *atomic.Int64
+}
+
+func (t *cursorLinks) RoundTrip(req *http.Request) (*http.Response, error) {
+	if cur := req.URL.Query().Get("next_page"); cur != "" {
+		raw, err := base64.RawURLEncoding.DecodeString(cur)
+		if err != nil {
+			return nil, fmt.Errorf("peer: unreadable cursor %q", cur)
+		}
+		r2 := req.Clone(req.Context())
+		u2 := *req.URL
+		u2.RawQuery = string(raw)
+		r2.URL = &u2
+		req = r2
+	}
+	resp, err := t.inner.RoundTrip(req)
+	if err != nil {
+		return resp, err
+	}
+	if l := resp.Header.Get("Link"); strings.HasPrefix(l, "<") && strings.Contains(l, ">") {
+		target := l[1:strings.Index(l, ">")]
+		if u, perr := url.Parse(target); perr == nil && u.RawQuery != "" {
+			u.RawQuery = "next_page=" + base64.RawURLEncoding.EncodeToString([]byte(u.RawQuery))
+			resp.Header.Set("Link", "<"+u.String()+">"+l[strings.Index(l, ">")+1:])
+			t.n.Add(1)
+		}
+	}
+	return resp, nil
+}
+
+var cursorPages atomic.Int64
 
 func genItems(rng *rand.Rand, kind string, n int) []string {
 	set := map[string]bool{}
@@ -478,6 +517,11 @@ func runCase(run *evid.Run, idx int) {
 				pat := []uint64{^uint64(1), 0xAAAAAAAAAAAAAAAA, ^uint64(7), 0x5555555555555554}[(idx/5)%4]
 				o.Wrap = func(rt http.RoundTripper) http.RoundTripper { return &someLinks{inner: rt, pattern: pat} }
 				run.Count("listings_with_link_on_some_pages_only", 1)
+			}
+			if o.Wrap == nil && !c.OmitLink[hi] && idx%4 == 2 {
+				// a peer that pages with opaque cursors
+				o.Wrap = func(rt http.RoundTripper) http.RoundTripper { return &cursorLinks{inner: rt, n: &cursorPages} }
+				run.Count("listings_from_peers_with_opaque_cursors", 1)
 			}
 			if o.Wrap == nil && idx%3 == 1 {
 				// a peer that leaves empty list members out of its answers
@@ -869,5 +913,6 @@ func main() {
 	run.FloorCounter("early_stops", 100)
 	run.FloorCounter("faults_surfaced_as_error", 50)
 	run.Count("pages_with_empty_member_omitted", int(sparsePages.Load()))
+	run.Count("pages_linked_by_opaque_cursor", int(cursorPages.Load()))
 	run.Finish()
 }
